@@ -227,11 +227,10 @@ def frameStep (s : FrameS) : FrameOp → FrameS × Option Err
     if size > tfdfMaxSize - s.frame.tfdf.headerLen then (s, some .value)
     else ({ frame := { s.frame with tfdf := { s.frame.tfdf with tfdz := d } }, size := size }, none)
   | .setFrameLen =>
-    match s.frame.header with
-    | .primary h =>
-      if s.len - 1 > 65535 then (s, some .value)
-      else ({ s with frame := { s.frame with header := .primary { h with frameLen := s.len - 1 } } }, none)
-    | .truncated _ => (s, none)
+    -- the C17 model function, on the length `TransferFrame.len()` reports (cached data-field size)
+    match s.frame.setFrameLenWith s.len with
+    | .ok f => ({ s with frame := f }, none)
+    | .error e => (s, some e.toErr)
 
 def frameMachine : Machine FrameS FrameOp := ⟨frameStep⟩
 
